@@ -5,6 +5,7 @@ import itertools
 import functools
 import operator
 import graphlib
+import hashlib
 import pickle
 import gzip
 import base64
@@ -40,7 +41,10 @@ CONTRACTS = {
                        "why": "4 labels <-> 4 checks; cycle check = TopologicalSorter(dict(_dependencies())).prepare() with exception => True; "
                               "definition-uniqueness checks compare the number of distinct definition keys with the number of distinct ids "
                               "(keys are holes judged by rule E7); duplicate edge check over (parent id, child id)"},
-    "AtLeast.__eq__": {"props": ["C09"], "why": "equality used by ==; (its adequacy as a de-duplication key is judged by E7 under C10)"},
+    "AtLeast.__hash__": {"props": ["C10"], "why": "hash over (variable, sign, value, children): the definition key used by check #3"},
+    "AtLeast.__lt__": {"props": ["C10"], "why": "ordering by id"},
+    "AtLeast._id_generator": {"props": ["C10", "C16"], "why": "generated id = prefix + sha256(children ids + value + sign): deterministic in the definition"},
+    "AtLeast.__eq__": {"props": ["C09", "C10"], "why": "equality used by ==; (its adequacy as a de-duplication key is judged by E7 under C10)"},
     # ---- evaluation kernel -------------------------------------------------------------------------------
     "AtLeast._equation_mm": {"props": ["C06"], "split": "sign", "why": "exact range of sign*sum over the children's box"},
     "AtLeast.equation_bounds": {"props": ["C06"], "why": "range of sign*sum - value"},
@@ -134,6 +138,18 @@ class AtLeast:
     def _dependencies(self):
         return [(self.id, [x.id for x in self.atomic_propositions] + [x.id for x in self.compound_propositions])] + \
             list(itertools.chain.from_iterable(c._dependencies() for c in self.compound_propositions))
+
+    def __hash__(self):
+        return hash((self.variable, self.sign, self.value, tuple(self.propositions)))
+
+    def __lt__(self, other):
+        return self.id < other.id
+
+    def _id_generator(propositions, value, sign, prefix="VAR"):
+        return prefix + hashlib.sha256(str("".join(itertools.chain(
+            (x.id for x in propositions if issubclass(x.__class__, puan.variable)),
+            (x.variable.id for x in propositions if not issubclass(x.__class__, puan.variable)),
+        )) + str(value) + str(sign)).encode()).hexdigest()
 
     def __eq__(self, other):
         if not type(self) == type(other):
